@@ -24,7 +24,7 @@ macro_rules! __array_map {
         |$i:ident| $get_input:expr,
         ($($pattern:tt)*) $(-> $ret:ty)? $mapper:block $(,)?
     ) => ({
-        let len = $array.len();
+        let len = $crate::__::array_len(&$array);
         let mut out = $crate::__::uninit_array_of_len(&$array);
 
         let mut $i = 0usize;
@@ -89,6 +89,14 @@ macro_rules! __split_array_type_and_closure {
 #[inline(always)]
 pub const fn assert_array<T, const N: usize>(array: &[T; N]) -> &[T; N] {
     array
+}
+
+/// The length of an array, without method-call syntax:
+/// a `len` method of a user trait implemented for arrays would otherwise be picked up by
+/// `$array.len()` in the macros above.
+#[inline(always)]
+pub const fn array_len<T, const N: usize>(_input: &[T; N]) -> usize {
+    N
 }
 
 #[inline(always)]
